@@ -277,8 +277,11 @@ def rule_route(ctx: Ctx) -> RuleResult:
     else:
         res.violation([gg.qualname, "attribute routing", attribute], f"the attribute '{attribute}' does not reach NextGetter.get_attr", gg.relpath, table.lineno)
     ga = ctx.p.function("spil.sid.read.getters.getter_all.GetFromAll.get_attr")
-    if any(isinstance(n, ast.Call) and norm(n) == "get_getter(sid, attribute=attribute, config=self.config)" for n in own_nodes(ga.node)) and any(
-            r_.value is not None and norm(r_.value) == "source.get_attr(sid, attribute=attribute)" for r_ in _rets(ga)):
+    gaflow = flow_of(ga.node)
+    sidp_, attrp_ = ga.params[1], ga.params[2]
+    lookups_ = [d for d in gaflow.all_defs if d.kind == "assign" and isinstance(d.value, ast.Call) and norm(d.value) ==
+                f"get_getter({sidp_}, attribute={attrp_}, config=self.config)"]
+    if lookups_ and any(r_.value is not None and norm(r_.value) == f"{lookups_[0].var}.get_attr({sidp_}, attribute={attrp_})" for r_ in _rets(ga)):
         res.ok("GetFromAll.get_attr", "get_getter(sid, attribute=attribute, ...).get_attr(sid, attribute=attribute)")
     else:
         res.violation([ga.qualname, "routing"], "GetFromAll.get_attr does not route by attribute", ga.relpath, ga.node.lineno)
@@ -299,8 +302,15 @@ def rule_getnew(ctx: Ctx) -> RuleResult:
     gl = p.function("spil.sid.sid.DataSid.get_last")
     flow = flow_of(gl.node)
     cfg = cfg_of(gl.node)
-    found = [d for d in flow.all_defs if d.var == "found" and d.value is not None]
-    ok = bool(found) and norm(found[0].value) == "FindInAll().find_one(self.get_with(key=key, value='>'), as_sid=True)"
+    import re as _re
+    from ..shape import inline_locals as _il
+
+    keyp0 = gl.params[1] if len(gl.params) > 1 else "key"
+    want_rx = rf"FindInAll\(\)\.find_one\(self\.get_with\(key=({keyp0}|{keyp0} or self\.keytype), value='>'\), as_sid=True\)"
+    found = [d for d in flow.all_defs if d.kind == "assign" and isinstance(d.value, ast.Call) and isinstance(d.value.func, ast.Attribute)
+             and d.value.func.attr == "find_one"]
+    ok = len(found) == 1 and bool(_re.fullmatch(want_rx, norm(_il(gl, found[0].value, found[0].value))))
+    found_var = found[0].var if found else "found"
     if ok:
         res.ok("DataSid.get_last search", "FindInAll().find_one(self.get_with(key=key, value='>'), as_sid=True)")
     else:
@@ -318,8 +328,8 @@ def rule_getnew(ctx: Ctx) -> RuleResult:
                 res.violation([gl.qualname, "early empty", bad[0]], f"get_last returns the empty Sid when `{bad[0]}` is false: the last entry of a "
                                                                     f"key below the Sid (task -> version) is never found", gl.relpath, r.lineno)
             continue
-        tests = [(norm(t), lab) for t, lab in ctx.ef._dominating_tests(cfg, r)]
-        if norm(v) == "found" and ("found.get(key)", "true") in tests:
+        fs_ = _facts_at(ctx, gl, r)
+        if norm(v) == found_var and any(tr_ and _re.fullmatch(rf"{_re.escape(found_var)}\.get\((\w+)\)", t_) for t_, tr_ in fs_):
             res.ok("DataSid.get_last return", "the found Sid, only if it really carries the key; else the empty Sid")
         else:
             res.violation([gl.qualname, "return", norm(r)], f"get_last returns `{norm(v)}` without the validity test", gl.relpath, r.lineno)
